@@ -235,7 +235,7 @@ func (s *shape) driver(b *strings.Builder, argvs [][]int) {
 		assign = strings.Join(resVars, ", ") + " := "
 	}
 	for _, ids := range argvs {
-		fmt.Fprintf(b, "func init() {\n\tcases = append(cases, func(w *bufio.Writer) {\n")
+		fmt.Fprintf(b, "func init() {\n\tcases = append(cases, kase{%q, func(w *bufio.Writer) {\n", fmt.Sprintf("(call %s %s %s", s.plugin, s.sexp(), idList(ids)))
 		// the i-th argument the caller supplies has the type of the i-th parameter of the *derived*
 		// function: for flip that is the original list with its first two entries swapped
 		callParams := append([]param{}, all...)
@@ -253,7 +253,7 @@ func (s *shape) driver(b *strings.Builder, argvs [][]int) {
 				decs = append(decs, s.dec(p.c, resVars[i]))
 			}
 			fmt.Fprintf(b, "\t\tfmt.Fprintf(w, \"(call tuple %s %s (ret () %%s))\\n\", ints([]int{%s}))\n", s.sexp(), idList(ids), strings.Join(decs, ", "))
-			fmt.Fprintf(b, "\t})\n}\n\n")
+			fmt.Fprintf(b, "\t}})\n}\n\n")
 			continue
 		}
 		fmt.Fprintf(b, "\t\tvar log []string\n")
@@ -308,7 +308,7 @@ func (s *shape) driver(b *strings.Builder, argvs [][]int) {
 		obsArgs := ids // what the caller of the derived function passes, in that order
 		fmt.Fprintf(b, "\t\tfmt.Fprintf(w, \"(call %s %s %s (ret (%%s) %%s))\\n\", strings.Join(log, \" \"), ints([]int{%s}))\n",
 			s.plugin, s.sexp(), idList(obsArgs), strings.Join(decs, ", "))
-		fmt.Fprintf(b, "\t})\n}\n\n")
+		fmt.Fprintf(b, "\t}})\n}\n\n")
 	}
 }
 
@@ -337,7 +337,12 @@ import (
 	"strings"
 )
 
-var cases []func(w *bufio.Writer)
+type kase struct {
+	prefix string // "(call PLUGIN SIG ARGS": completed by the result or by " panic)"
+	run    func(w *bufio.Writer)
+}
+
+var cases []kase
 
 var _ = strings.Join
 var _ = strconv.Itoa
@@ -369,7 +374,14 @@ func main() {
 	w := bufio.NewWriter(os.Stdout)
 	defer w.Flush()
 	for _, c := range cases {
-		c(w)
+		func() {
+			defer func() {
+				if r := recover(); r != nil {
+					fmt.Fprintf(w, "%s panic)\n", c.prefix)
+				}
+			}()
+			c.run(w)
+		}()
 	}
 }
 `
@@ -570,7 +582,7 @@ func genShapes(r *hx.Rand, tier string) []*shape {
 	typeKinds := []string{"mixed", "uniform"}
 	if tier == "thorough" {
 		maxN = 5
-		typeKinds = []string{"mixed", "uniform", "mixed", "mixed"}
+		typeKinds = []string{"mixed", "uniform", "mixed", "mixed", "mixed", "uniform", "mixed", "mixed"}
 	}
 	for _, plugin := range []string{"curry", "flip", "apply"} {
 		for n := 2; n <= maxN; n++ {
@@ -786,7 +798,7 @@ func Run(cfg hx.Config) (*hx.Meta, error) {
 	var obs strings.Builder
 	nargv := 2
 	if cfg.Tier == "thorough" {
-		nargv = 4
+		nargv = 6
 	}
 	vetSamples := map[string]bool{}
 	for pi, p := range pkgs {
